@@ -243,6 +243,14 @@ def g1_g2(prog, rep, enums_by_unit, min_uses=10):
             for e in f.all_elems():
                 if (e.is_assign or e.is_incdec) and norm(e.kid(0))[0] == "v" and norm(e.kid(0))[1] == "hwaccel":
                     rep.bad("G2-select", "store to hwaccel in %s" % f.name, e.where, "the selector is written outside hwaccel_init", function=f.name, construct="foreign-store")
+        # the decision is made once: nothing puts the selector back to "undecided" (objects created under one decision -- expanded
+        # keys, contexts -- are used under whatever decision is current when they are used)
+        if hw is not None and sel.get("HW_UNSET") is not None:
+            for e in hw.all_elems():
+                if e.is_assign and e.op == "=" and norm(e.kid(0))[0] == "v" and norm(e.kid(0))[1] == "hwaccel" and norm(e.kid(1)) == ("c", sel["HW_UNSET"]):
+                    rep.bad("G2-select", "hwaccel = HW_UNSET in %s" % up, e.where,
+                            "the selection is reset to undecided: a later call may select another implementation while objects built for the earlier one are still in use",
+                            function="hwaccel_init", construct="selector-reset")
         # dispatchers initialise before testing
         for f in u.funcs:
             if f.file != up or f.name == "hwaccel_init" or f.static:
@@ -475,6 +483,10 @@ def run(tier):
             g4(prog, rep, tier)
             g5(prog, rep)
             g6_cursor(prog, rep)
+            # the portable CRC code is the other half of every SSE4.2 result (heads, tails, short updates): its table
+            # generator and step structure (C01's K5) are part of "the same function"
+            from . import c01
+            c01.k5(prog, rep)
             # the AES-CTR siblings must agree on counter layout and position bookkeeping (rules shared with C02)
             from . import c02
             c02.l1_l3(prog, rep)
